@@ -289,11 +289,11 @@ Proof.
       split; [exact Ec|]. split; [exact Efu|]. split; [now rewrite Erq1|].
       destruct tag.
       * destruct Htag as (El & Hh & Hstop). rewrite El, <- app_assoc. cbn [app]. split; [reflexivity|].
-        split; [exact Hh|]. intros ps0 p0 E0. destruct ps0 as [|x ps0]; cbn [app] in E0; inversion E0; subst.
+        split; [now rewrite <- app_assoc in Hh|]. intros ps0 p0 E0. destruct ps0 as [|x ps0]; cbn [app] in E0; inversion E0; subst.
         -- cbn [concat]. now rewrite app_nil_r.
         -- cbn [concat]. rewrite app_assoc. now apply (Hstop ps0 p0).
-      * destruct Htag as (El & Hh & Hq & Hc). rewrite El, <- app_assoc. cbn [app]. repeat split; auto.
-      * destruct Htag as (El & Hh & Hq & Hc). rewrite El, <- app_assoc. cbn [app]. repeat split; auto.
+      * destruct Htag as (El & Hh & Hq & Hc). rewrite El, <- app_assoc. cbn [app]. rewrite <- app_assoc in Hh. repeat split; auto.
+      * destruct Htag as (El & Hh & Hq & Hc). rewrite El, <- app_assoc. cbn [app]. rewrite <- app_assoc in Hh. repeat split; auto.
       * exact Htag.
 Qed.
 
@@ -342,5 +342,183 @@ Proof.
     + exists ps. repeat split; auto. left. split; [exact El|]. eauto.
   - destruct Htag as (El & Hh & Hq & Hc). exists ps. repeat split; auto. right. apply no_line_ending_spec in Hh. auto.
   - destruct Htag as (El & Hh & Hq & Hc). exists ps. apply no_line_ending_spec in Hh. repeat split; auto.
-  - exact Htag.
+  - destruct Htag.
+Qed.
+
+(* ================================================================ the protocol, as the property text has it *)
+(* what the client reads in answer to one of its lines, and how it must judge it *)
+Inductive reply (word : list N) : list event -> auth_res -> Prop :=
+| ReplyAccept ps line dropped :        (* a complete UTF-8 line that starts with the expected word *)
+    first_line (concat ps) line dropped -> stops_early ps dropped ->
+    utf8_valid line = true -> starts_with word line = true -> reply word (map R ps) AOk
+| ReplyReject ps line dropped :        (* a complete UTF-8 line that does not (REJECTED, ERROR, garbage, ...) *)
+    first_line (concat ps) line dropped -> stops_early ps dropped ->
+    utf8_valid line = true -> starts_with word line = false -> reply word (map R ps) ARejected
+| ReplyNotUtf8 ps line dropped :       (* a complete line that is not UTF-8 *)
+    first_line (concat ps) line dropped -> utf8_valid line = false -> reply word (map R ps) AErr
+| ReplyEof ps :                        (* the peer closed before completing a line *)
+    ~ has_crlf (concat ps) -> reply word (map R ps ++ [E]) AErr
+| ReplyBlocked ps :                    (* the peer is silent with the socket open: the client waits in read() *)
+    ~ has_crlf (concat ps) -> reply word (map R ps) ABlocked.
+
+Definition accepted (word r : list N) : Prop :=
+  exists line dropped, first_line r line dropped /\ utf8_valid line = true /\ starts_with word line = true.
+
+Definition AUTH_LINE (hex : list N) : list N := AUTH_EXTERNAL ++ hex ++ CRLF.
+Definition NEG_LINE : list N := NEGOTIATE_UNIX_FD ++ CRLF.
+Definition BEGIN_LINE : list N := BEGIN ++ CRLF.
+(* how a non-accepting reply ends the connection attempt *)
+Definition refused (rej : conn_result) (a : auth_res) : conn_result :=
+  match a with ARejected => rej | ABlocked => CBlocked | _ => CErr end.
+
+(* the conforming runs of the client: system-call log and reported result *)
+Inductive conforming (hex : list N) (with_fd : bool) : list event -> conn_result -> Prop :=
+| RunNoPeer :                                   (* the peer is gone before the NUL byte: nothing sent *)
+    conforming hex with_fd [] CErr
+| RunAuthRefused evs a :
+    reply OK_ evs a -> a <> AOk ->
+    conforming hex with_fd (W NUL :: W (AUTH_LINE hex) :: evs) (refused CAuthFailed a)
+| RunBeginFailed evs :                          (* accepted, no fd negotiation, BEGIN could not be written *)
+    with_fd = false -> reply OK_ evs AOk ->
+    conforming hex with_fd (W NUL :: W (AUTH_LINE hex) :: evs) CErr
+| RunOk evs :
+    with_fd = false -> reply OK_ evs AOk ->
+    conforming hex with_fd (W NUL :: W (AUTH_LINE hex) :: evs ++ [W BEGIN_LINE]) COk
+| RunNegFailed evs :                            (* accepted, NEGOTIATE_UNIX_FD could not be written *)
+    with_fd = true -> reply OK_ evs AOk ->
+    conforming hex with_fd (W NUL :: W (AUTH_LINE hex) :: evs) CErr
+| RunFdRefused evs1 evs2 a :
+    with_fd = true -> reply OK_ evs1 AOk -> reply AGREE_UNIX_FD evs2 a -> a <> AOk ->
+    conforming hex with_fd (W NUL :: W (AUTH_LINE hex) :: evs1 ++ W NEG_LINE :: evs2) (refused CFdFailed a)
+| RunFdBeginFailed evs1 evs2 :
+    with_fd = true -> reply OK_ evs1 AOk -> reply AGREE_UNIX_FD evs2 AOk ->
+    conforming hex with_fd (W NUL :: W (AUTH_LINE hex) :: evs1 ++ W NEG_LINE :: evs2) CErr
+| RunFdOk evs1 evs2 :
+    with_fd = true -> reply OK_ evs1 AOk -> reply AGREE_UNIX_FD evs2 AOk ->
+    conforming hex with_fd (W NUL :: W (AUTH_LINE hex) :: evs1 ++ W NEG_LINE :: evs2 ++ [W BEGIN_LINE]) COk.
+
+(* ================================================================ the model conforms *)
+Definition avail (s : sock) : nat := length (rq s ++ fpieces (future s)).
+
+Lemma ext_avail s s' evs : ext s s' evs -> (avail s' <= avail s)%nat /\ (length (rq s') <= avail s)%nat.
+Proof.
+  intros [_ P]. unfold avail. rewrite <- P. rewrite !app_length. lia.
+Qed.
+
+Lemma ext_reads s1 s2 ps tail :
+  rq s1 = ps ++ rq s2 -> future s2 = future s1 -> log s2 = log s1 ++ map R ps ++ tail -> reads tail = [] ->
+  ext s1 s2 (map R ps ++ tail).
+Proof.
+  intros Erq Efu El Ht. split; [exact El|]. rewrite reads_app, reads_map_R, Ht, app_nil_r, Erq, Efu.
+  now rewrite app_assoc.
+Qed.
+
+(* one request/response exchange: write_message(msg), read_message into a fresh buffer, classify *)
+Lemma exchange_spec fuel word msg s :
+  (avail s < fuel)%nat ->
+  match write_message msg s with
+  | None => closed s = true
+  | Some s1 =>
+      closed s = false /\
+      match read_message fuel s1 [] with
+      | (r, s2) => exists evs, ext s s2 (W (msg ++ CRLF) :: evs) /\ reply word evs (classify word r)
+                               /\ (classify word r = ABlocked ->
+                                     rq s2 = [] /\ closed s1 = false /\ evs = map R (rq s1))
+      end
+  end.
+Proof.
+  intros Hf. unfold write_message. destruct (sock_write s (msg ++ CRLF) true) as [s1|] eqn:Ew.
+  - apply sock_write_some in Ew. destruct Ew as (Hc & Hext & _). split; [exact Hc|].
+    destruct (ext_avail _ _ _ Hext) as [_ Hrq].
+    pose proof (read_message_spec fuel s1 ltac:(lia)) as H.
+    destruct (read_message fuel s1 []) as [r s2]. destruct H as (ps & Erq & Ec & Efu & Hr).
+    destruct r as [line| | | |]; cbn [classify].
+    + destruct Hr as (El & dropped & Hfl & Hu & Hstop). exists (map R ps). split; [|split].
+      * apply (ext_trans s s1 s2 [W (msg ++ CRLF)] (map R ps) Hext).
+        rewrite <- (app_nil_r (map R ps)). apply ext_reads; auto. now rewrite app_nil_r.
+      * destruct (starts_with word line) eqn:Es; econstructor; eauto.
+      * destruct (starts_with word line); discriminate.
+    + destruct Hr as [(El & line & dropped & Hfl & Hu)|(El & Hn & Hq & Hcl)].
+      * exists (map R ps). split; [|split; [|discriminate]].
+        -- apply (ext_trans s s1 s2 [W (msg ++ CRLF)] (map R ps) Hext).
+           rewrite <- (app_nil_r (map R ps)). apply ext_reads; auto. now rewrite app_nil_r.
+        -- econstructor; eauto.
+      * exists (map R ps ++ [E]). split; [|split; [|discriminate]].
+        -- apply (ext_trans s s1 s2 [W (msg ++ CRLF)] (map R ps ++ [E]) Hext). apply ext_reads; auto.
+        -- now constructor.
+    + destruct Hr as (El & Hn & Hq & Hcl). exists (map R ps). split; [|split].
+      * apply (ext_trans s s1 s2 [W (msg ++ CRLF)] (map R ps) Hext).
+        rewrite <- (app_nil_r (map R ps)). apply ext_reads; auto. now rewrite app_nil_r.
+      * now constructor.
+      * intros _. rewrite Hq, app_nil_r in Erq. subst ps. auto.
+    + destruct Hr.
+    + destruct Hr.
+  - now apply sock_write_none in Ew.
+Qed.
+
+Lemma reply_total word evs a : reply word evs a -> a <> APanic /\ a <> AFuel.
+Proof. intros H. inversion H; split; discriminate. Qed.
+
+Lemma finish_spec s : match finish s with
+                      | (res, s') => (res = CErr /\ s' = s /\ closed s = true)
+                                     \/ (res = COk /\ ext s s' [W BEGIN_LINE])
+                      end.
+Proof.
+  unfold finish, send_begin, write_message. destruct (sock_write s (BEGIN ++ CRLF) true) as [s'|] eqn:Ew.
+  - right. apply sock_write_some in Ew. now destruct Ew as (_ & Hext & _).
+  - left. apply sock_write_none in Ew. auto.
+Qed.
+
+(* every run of the model is a conforming run, and the pieces are accounted for *)
+Theorem connect_on_conforms fuel uid hex with_fd s0 :
+  get_uid_as_hex uid = Ok hex -> (avail s0 < fuel)%nat ->
+  match connect_on fuel uid with_fd s0 with
+  | (res, s) => exists evs, ext s0 s evs /\ conforming hex with_fd evs res
+  end.
+Proof.
+  intros Hhex Hf. unfold connect_on, do_auth.
+  destruct (sock_write s0 NUL false) as [s1|] eqn:Ew0.
+  2:{ cbn [lift]. exists []. split; [apply ext_refl|constructor]. }
+  apply sock_write_some in Ew0. destruct Ew0 as (Hc0 & Hext0 & Hc1). specialize (Hc1 eq_refl).
+  rewrite Hhex. destruct (ext_avail _ _ _ Hext0) as [Hav1 _].
+  pose proof (exchange_spec fuel OK_ (AUTH_EXTERNAL ++ hex) s1 ltac:(lia)) as H1.
+  destruct (write_message (AUTH_EXTERNAL ++ hex) s1) as [s2|]; [|congruence].
+  destruct H1 as [_ H1]. destruct (read_message fuel s2 []) as [r1 s3].
+  destruct H1 as (evs1 & Hext1 & Hrep1 & _).
+  replace ((AUTH_EXTERNAL ++ hex) ++ CRLF) with (AUTH_LINE hex) in Hext1 by (unfold AUTH_LINE; now rewrite app_assoc).
+  pose proof (ext_trans _ _ _ _ _ Hext0 Hext1) as Hext03. cbn [app] in Hext03.
+  destruct (reply_total _ _ _ Hrep1) as [Hnp1 Hnf1].
+  destruct (classify OK_ r1) eqn:Ecl1; try congruence.
+  - (* AUTH accepted *)
+    destruct (ext_avail _ _ _ Hext03) as [Hav3 _].
+    destruct with_fd.
+    + unfold negotiate_unix_fds.
+      pose proof (exchange_spec fuel AGREE_UNIX_FD NEGOTIATE_UNIX_FD s3 ltac:(lia)) as H2.
+      destruct (write_message NEGOTIATE_UNIX_FD s3) as [s4|].
+      2:{ cbn [lift]. eexists. split; [exact Hext03|]. now apply RunNegFailed. }
+      destruct H2 as [_ H2]. destruct (read_message fuel s4 []) as [r2 s5].
+      destruct H2 as (evs2 & Hext2 & Hrep2 & _). fold NEG_LINE in Hext2.
+      pose proof (ext_trans _ _ _ _ _ Hext03 Hext2) as Hext05. cbn [app] in Hext05.
+      destruct (reply_total _ _ _ Hrep2) as [Hnp2 Hnf2].
+      destruct (classify AGREE_UNIX_FD r2) eqn:Ecl2; try congruence.
+      * pose proof (finish_spec s5) as Hfin. destruct (finish s5) as [res s6].
+        destruct Hfin as [(-> & -> & _)|(-> & HextB)].
+        -- eexists. split; [exact Hext05|]. now apply RunFdBeginFailed.
+        -- pose proof (ext_trans _ _ _ _ _ Hext05 HextB) as Hext06. cbn [app] in Hext06.
+           rewrite <- app_assoc in Hext06. cbn [app] in Hext06.
+           eexists. split; [exact Hext06|]. cbn [app]. now apply RunFdOk.
+      * eexists. split; [exact Hext05|].
+        apply (RunFdRefused hex true evs1 evs2 ARejected); auto. discriminate.
+      * cbn [lift]. eexists. split; [exact Hext05|].
+        apply (RunFdRefused hex true evs1 evs2 AErr); auto. discriminate.
+      * cbn [lift]. eexists. split; [exact Hext05|].
+        apply (RunFdRefused hex true evs1 evs2 ABlocked); auto. discriminate.
+    + pose proof (finish_spec s3) as Hfin. destruct (finish s3) as [res s4].
+      destruct Hfin as [(-> & -> & _)|(-> & HextB)].
+      * eexists. split; [exact Hext03|]. now apply RunBeginFailed.
+      * pose proof (ext_trans _ _ _ _ _ Hext03 HextB) as Hext04. cbn [app] in Hext04.
+        eexists. split; [exact Hext04|]. now apply RunOk.
+  - eexists. split; [exact Hext03|]. apply (RunAuthRefused hex with_fd evs1 ARejected); auto. discriminate.
+  - cbn [lift]. eexists. split; [exact Hext03|]. apply (RunAuthRefused hex with_fd evs1 AErr); auto. discriminate.
+  - cbn [lift]. eexists. split; [exact Hext03|]. apply (RunAuthRefused hex with_fd evs1 ABlocked); auto. discriminate.
 Qed.
